@@ -200,6 +200,17 @@ theorem filter_law_any_answer (i : FInput) (f : Nat) (h0 : listFailed i 0 = fals
 theorem listing_all_or_nothing (i : FInput) (f : Nat) (h : listFailed i f = true) : statusAllF i f = [] :=
   statusAllF_failed i f h
 
+/-- … and a listing that lost none is complete: every CID whose per-CID status
+is a definite one (not an error status, not unpinned) that matches the filter is
+listed with that status (daemon answering from some IPFS pin set, no fault on
+the path of `Status` for this CID). Together: no partial listing is ever
+returned as a listing. -/
+theorem listing_complete (i : FInput) (f : Nat) (r : FRec) (h : Ipfs) (hc : r.coherentHeld = some h)
+    (hf : listFailed i f = false) (hs : sFault i r = false)
+    (hne : statusF i r ≠ stUnpinned) (herr : isErr (statusF i r) = false) (hm : matchF (statusF i r) f = true) :
+    listEntryF i f r = some (statusF i r) :=
+  listEntryF_complete i f r h (coherentHeld_spec hc) hf hs hne herr hm
+
 /-- The law for EVERY daemon answer. -/
 def filter_law_every_answer : Prop :=
   ∀ (i : FInput) (f : Nat), listFailed i 0 = false →
